@@ -26,7 +26,7 @@ PROPS = {
     "C16": "c16", "C17": "c17", "C18": "c18", "C19": "c19", "C20": "c20",
 }
 
-RUN_WALL_CAP_S = 120  # per run; a run that needs longer is undecided(timeout), never a verdict
+RUN_WALL_CAP_S = 60  # per run; a run that needs longer is undecided(timeout), never a verdict
 
 
 def load_prop(pid: str):
@@ -447,9 +447,11 @@ def run_batch(pid: str, tier: str, verif_seed: int, runs: Optional[int], workers
         print(f"HARNESS-ERROR worker died: {exc}", flush=True)
         return 2
 
-    if harness_errors:
+    if harness_errors and not any(item["violations"] for item in violating):
         print("HARNESS-ERROR", len(harness_errors), "runs failed inside the harness; first:\n", harness_errors[0], flush=True)
         return 2
+    if harness_errors:
+        print("note:", len(harness_errors), "runs failed inside the harness (reported after the violations); first:\n", harness_errors[0][:600], flush=True)
 
     # classify violations
     unknown: Dict[tuple, dict] = {}
@@ -574,6 +576,9 @@ def run_batch(pid: str, tier: str, verif_seed: int, runs: Optional[int], workers
     os.makedirs(os.path.join(VERIF, "evidence"), exist_ok=True)
     with open(os.path.join(VERIF, "evidence", f"{pid}.json"), "w") as dst:
         json.dump(doc, dst, indent=1, sort_keys=True, default=core._default)
+    if harness_errors and exit_code == 0:
+        print("HARNESS-ERROR", len(harness_errors), "runs failed inside the harness and no violation was confirmed", flush=True)
+        exit_code = 2
     print(f"{pid} {tier}: runs={done_runs} decided={evaluations} distinct={len(sigs)} violations={len(unknown)} known={sum(known_hits.values())} wall={wall:.1f}s digest={batch_digest[:12]}", flush=True)
     return exit_code
 
